@@ -1,5 +1,6 @@
 import Driver.Proto
 import PolyVerif.Model.Stl
+import PolyVerif.Model.Binary32
 import PolyVerif.Gen.StlNormals
 
 /-!
@@ -171,6 +172,19 @@ def meshHex (m : Mesh UInt64) : String :=
 
 def handle (op : String) (args : List String) : Option String := do
   match op with
+  | "c07.q32spec" =>
+      -- Go's float32(x) against its SPECIFICATION (B32.q32spec: nearest, ties to even, exact integer arithmetic)
+      let ws ← args.mapM fun a => if a.length ≠ 16 then none else parseHex a
+      pure (" ".intercalate (ws.map fun b => natToHex (B32.q32spec b) 8))
+  | "c07.holds.q32_stored" =>
+      -- every position word WriteMesh stored = q32spec of the mesh coordinate (NaN canonical)
+      let rec go : List String → Option Bool
+        | [] => some true
+        | [_] => none
+        | a :: w :: r => do
+            let b ← parseHex a; let u ← parseHex w
+            (go r).map (· && (a.length == 16 && B32.q32spec b == u))
+      (go args).map boolStr
   | "c07.write" =>
       let ((h, ts), _) ← bin? args
       pure (hexOfBytes (encode h ts))
